@@ -3,7 +3,7 @@ from .. import adevhist, ndevhist, core, machist, macstage, lw
 
 ID = "C07"
 THEOREMS = ["C07_reject_is_identity", "C07_oversized_only_ends_the_window", "C07_invalid_join_accept_is_identity",
-            "C07_async_window_rejected_frame_is_timeout", "C07_async_rxc_rejected_frame_is_skipped", "C07_nb_rejected_frame_keeps_the_window_open"]
+            "C07_async_window_rejected_frame_is_timeout", "C07_async_rxc_rejected_frame_is_skipped", "C07_nb_rejected_frame_keeps_the_window_open", "C07_rejection_premise_met"]
 
 
 def rejected_frame(rng, net, kept):
